@@ -270,6 +270,43 @@ static void run_beyond(const char *name) {
   }
 }
 
+// SmallSet inline with a transparent comparator: a heterogeneous key equivalent to several inline elements stays within 2N+2
+template <long N>
+static void small_wide_case(long fill, int width) {
+  typedef int32_t E;
+  typedef amc::SmallSet<E, N, TLess<E>, AStd<E> > S;
+  char key[128];
+  snprintf(key, sizeof key, "smallset transparent N=%ld fill=%ld wide-key width=%d", N, fill, width);
+  if (!enum_begin(key)) return;
+  ledgers_reset();
+  feature(5);
+  {
+    S s;
+    for (long i = 0; i < fill; ++i) s.emplace(static_cast<int>((i * 7) % N));  // values 0..N-1 in a scrambled insertion order
+    const S &cs = s;
+    const unsigned long long B = 2ull * N + 2;
+    const long n = fill;
+    for (int b = 0; b <= static_cast<int>(N / width) + 1 && !failed(); ++b) {
+      typename TLess<E>::Wide k = {b, width};
+      const long r = b;
+      unsigned long long c0;
+      ++g_probes;
+      COUNTED(cs.find(k), "SmallSet::find(heterogeneous key) (inline)");
+      COUNTED(cs.contains(k), "SmallSet::contains(heterogeneous key) (inline)");
+      COUNTED(cs.count(k), "SmallSet::count(heterogeneous key) (inline)");
+    }
+  }
+  enum_end(fill >= 2);
+}
+template <long N>
+static void run_small_wide() {
+  for (long f = 0; f <= N; ++f) {
+    small_wide_case<N>(f, 2);
+    small_wide_case<N>(f, 4);
+    small_wide_case<N>(f, 1000);
+  }
+}
+
 template <class S>
 static void run_flat(const char *name) {
   const bool thorough = est().thorough;
@@ -327,6 +364,9 @@ int main(int argc, char **argv) {
   run_beyond<I, 2>("int");
   run_beyond<I, 7>("int");
   run_beyond<TR, 4>("TR");
+  run_small_wide<4>();
+  run_small_wide<8>();
+  run_small_wide<16>();
   run_small<I, 1>("int");
   run_small<I, 2>("int");
   run_small<I, 4>("int");
